@@ -11,17 +11,24 @@
 //! region where the running `+=` / `-=` class weights of the sweep are no longer the exact weights of
 //! the applied partition.
 //!
-//! `form` selects the calling form on the Rust side (memory layout of the records, dataset shape,
-//! way `predict` is called); the model does not depend on it.
+//! `form` selects the calling form on the Rust side: dataset shape handed to `fit` (7), way `predict`
+//! is called (8), memory layout of the fitted records and of the predicted records (9 each: C / Fortran
+//! order, negative strides on either or both axes — owned arrays after `invert_axis` and views of them —
+//! and a strided window); the model does not depend on it.
+//!
+//! Features are `int / 2^xd * 2^xe`; the extreme stream uses `xe` at the top of the exponent range
+//! (sums of two values overflow) and the integers `±2^62` for `±inf`.  NaN is not generated: it is
+//! outside the statement (no order, hence no partition of feature space), and `sort_by` with
+//! `partial_cmp(..).unwrap_or(Greater)` is not a total order there.
 use crate::util::*;
 use linfa::dataset::{AsSingleTargets, CountedTargets, Labels};
 use linfa::prelude::*;
 use linfa::Label;
 use linfa_trees::{DecisionTree, DecisionTreeParams, SplitQuality, TreeNode};
-use ndarray::{s, Array1, Array2, ArrayBase, ArrayView2, Data, Ix2, ShapeBuilder};
+use ndarray::{s, Array1, Array2, ArrayBase, ArrayView2, Axis, Data, Ix2, ShapeBuilder};
 use std::cell::RefCell;
 
-pub const N_FORMS: usize = 14;
+pub const N_FORMS: usize = 7 * 8 * 9 * 9;
 /// tolerance of `decrease_actual`: the reported decrease went through f32 impurity arithmetic
 /// (unit roundoff 6e-8, a handful of operations on values <= log2(6)); the recomputation is f64.
 /// Largest deviations observed on the unchanged tree (thorough tier, seeds 1-3): Gini 1.6e-7 with
@@ -47,6 +54,8 @@ struct Case {
     mwl4: u32,
     mid: f64,
     xd: u32,
+    /// features are `int / 2^xd * 2^xe`; the integers `±INF_CODE` stand for `±inf`
+    xe: u32,
     xs: Vec<Vec<i64>>,
     ys: Vec<usize>,
     ws: Option<Vec<i64>>,
@@ -57,6 +66,9 @@ struct Case {
     /// label type: 0 usize ascending, 1 bool, 2 String (reverse alphabetical), 3 usize scrambled
     lt: u8,
 }
+
+/// the integer that stands for an infinite feature value
+const INF_CODE: i64 = 1 << 62;
 
 /// number of classes the model sees: class indices are `0..k`
 fn n_classes(ys: &[usize]) -> usize {
@@ -82,7 +94,7 @@ impl Case {
     fn op(&self) -> String {
         let l2 = |v: &Vec<Vec<i64>>| if v.is_empty() { String::new() } else { list2(v.iter().map(|r| r.iter()), |x| x.to_string()) };
         format!(
-            "fit ft={} form={} crit={} md={} mws4={} mwl4={} mid={} xd={} p={} xs={} ys={} lo={} ws={} wd={} wq={} pr={} lt={}",
+            "fit ft={} form={} crit={} md={} mws4={} mwl4={} mid={} xd={} xe={} p={} xs={} ys={} lo={} ws={} wd={} wq={} pr={} lt={}",
             if self.ft32 { 32 } else { 64 },
             self.form,
             if self.entropy { "e" } else { "g" },
@@ -91,6 +103,7 @@ impl Case {
             self.mwl4,
             hex64(self.mid),
             self.xd,
+            self.xe,
             self.p,
             l2(&self.xs),
             list(self.ys.iter(), |y| y.to_string()),
@@ -102,14 +115,24 @@ impl Case {
             self.lt
         )
     }
-    fn x(&self, i: usize, f: usize) -> f64 {
-        self.xs[i][f] as f64 / (1u64 << self.xd) as f64
+    fn val(&self, q: i64) -> f64 {
+        if q == INF_CODE {
+            f64::INFINITY
+        } else if q == -INF_CODE {
+            f64::NEG_INFINITY
+        } else {
+            q as f64 / (1u64 << self.xd) as f64 * (2.0f64).powi(self.xe as i32)
+        }
     }
-    /// the weight the dataset holds (an `f32`)
+    fn x(&self, i: usize, f: usize) -> f64 {
+        self.val(self.xs[i][f])
+    }
+    /// the weight the dataset holds (an `f32`); a weight vector shorter than the data answers 1.0
+    /// beyond its end (`DatasetBase::weight_for`)
     fn w32(&self, i: usize) -> f32 {
         match &self.ws {
-            Some(w) => (w[i] as f64 / ((1u64 << self.wd) as f64 * self.wq as f64)) as f32,
-            None => 1.0,
+            Some(w) if i < w.len() => (w[i] as f64 / ((1u64 << self.wd) as f64 * self.wq as f64)) as f32,
+            _ => 1.0,
         }
     }
     fn w(&self, i: usize) -> f64 {
@@ -153,6 +176,8 @@ struct Walk<'a, L> {
     feats: Vec<usize>,
     /// leaf prediction reached by every training row (fit-time routing)
     leaf_pred: Vec<Option<usize>>,
+    /// the dataset carried feature names `col<j>` (otherwise linfa names them `feature-<j>`)
+    named: bool,
 }
 
 impl<'a, L: Label> Walk<'a, L> {
@@ -176,13 +201,18 @@ impl<'a, L: Label> Walk<'a, L> {
         let (f, s, d) = node.split();
         let (s, d) = (s.to_f64().unwrap(), d.to_f64().unwrap());
         let dtok = hex64c(d);
+        // `feature_name()`: the name of the split's column for a split node, `None` for a leaf
+        let want_name = if node.is_leaf() { None } else { Some(if self.named { format!("col{}", f) } else { format!("feature-{}", f) }) };
+        ctx.require(node.feature_name().cloned() == want_name, "feature_name", &class, || format!("node at depth {} splitting on feature {} reports feature_name {:?}, expected {:?}", depth, f, node.feature_name(), want_name));
         if node.is_leaf() {
             self.n_leaves += 1;
             let pred = node.prediction();
             let pi = pred.as_ref().and_then(|p| (self.dec)(p));
             ctx.require(pi.is_some(), "seen_label", &class, || format!("leaf predicts {:?}, not a training label", pred));
             let pidx = pi.unwrap_or(usize::MAX);
-            ctx.require(l.is_none() && r.is_none(), "two_children", &class, || format!("leaf-flagged node at depth {} keeps a child (left {}, right {})", depth, l.is_some(), r.is_some()));
+            // outside the statement's guard (`min_weight_leaf = 0`) a side of a split may be empty: the
+            // one-child node is then compared with the model, not demanded to be absent
+            ctx.require((l.is_none() && r.is_none()) || c.mwl4 == 0, "two_children", &class, || format!("leaf-flagged node at depth {} keeps a child (left {}, right {})", depth, l.is_some(), r.is_some()));
             ctx.require(!rows.is_empty(), "leaf_nonempty", &class, || format!("no training row reaches the leaf at depth {}", depth));
             if pi.is_some() && !rows.is_empty() {
                 let fr = self.freq(&rows);
@@ -201,7 +231,7 @@ impl<'a, L: Label> Walk<'a, L> {
                 let (side, child) = if let Some(x) = l { ("l", x) } else { ("r", r.unwrap()) };
                 self.toks.extend(["H".to_string(), f.to_string(), hex64(s), dtok, pidx.to_string(), node.depth().to_string(), side.to_string()]);
                 // the kept child is walked for the correspondence only
-                let mut sub = Walk { c, k: self.k, mid: self.mid, dec: self.dec, toks: vec![], n_splits: 0, n_leaves: 0, max_depth: 0, feats: vec![], leaf_pred: vec![None; c.xs.len()] };
+                let mut sub = Walk { c, k: self.k, mid: self.mid, dec: self.dec, toks: vec![], n_splits: 0, n_leaves: 0, max_depth: 0, feats: vec![], leaf_pred: vec![None; c.xs.len()], named: self.named };
                 let mut dummy = Ctx { fails: vec![], trivial: false };
                 sub.go(&mut dummy, child, rows.clone(), depth + 1);
                 self.toks.extend(sub.toks);
@@ -266,34 +296,70 @@ fn fit_ds<F: linfa::Float, L: Label + std::fmt::Debug, D: Data<Elem = F>, T: AsS
     params.fit(ds)
 }
 
-/// a view with strides (2 rows, 2 columns) into a larger array holding `a`
-fn strided<F: linfa::Float>(a: &Array2<F>) -> Array2<F> {
-    let (n, p) = a.dim();
-    let mut big = Array2::from_elem((2 * n + 1, 2 * p + 1), F::cast(-777.0));
-    big.slice_mut(s![1..;2, ..2 * p;2]).assign(a);
-    big
+/// number of memory layouts of a record matrix (see `Laid`)
+pub const N_LAYOUTS: usize = 9;
+const LAYOUT_NAMES: [&str; N_LAYOUTS] = ["c", "f", "c_rowrev", "f_rowrev", "c_colrev", "f_colrev", "c_bothrev", "f_bothrev", "strided"];
+
+/// the matrix `a` held in one of nine memory layouts; `view()` always shows the logical content `a`.
+/// 0 C order, 1 Fortran order; 2/3 C / Fortran storage of the row-reversed data with axis 0 inverted
+/// (negative row stride; in Fortran storage every column is contiguous in memory and walked backwards);
+/// 4/5 column-reversed data with axis 1 inverted (negative column stride); 6/7 both axes inverted;
+/// 8 a (2,2)-strided window of a larger array.  Layouts 0..=7 are *owned* arrays (an owned `Array2` keeps
+/// negative strides after `invert_axis`), so they can also be handed over by value.
+struct Laid<F> {
+    arr: Array2<F>,
+    kind: usize,
+    p: usize,
 }
-fn strided_view<F: linfa::Float>(big: &Array2<F>, p: usize) -> ArrayView2<'_, F> {
-    big.slice(s![1..;2, ..2 * p;2])
-}
-fn f_order<F: linfa::Float>(a: &Array2<F>) -> Array2<F> {
-    let mut b = Array2::zeros(a.dim().f());
-    b.assign(a);
-    b
-}
-/// rows stored in reverse, seen through a view with a negative row stride
-fn reversed<F: linfa::Float>(a: &Array2<F>) -> Array2<F> {
-    a.slice(s![..;-1, ..]).to_owned()
+impl<F: linfa::Float> Laid<F> {
+    fn new(a: &Array2<F>, kind: usize) -> Self {
+        let (n, p) = a.dim();
+        let arr = if kind == 8 {
+            let mut big = Array2::from_elem((2 * n + 1, 2 * p + 1), F::cast(-777.0));
+            big.slice_mut(s![1..;2, ..2 * p;2]).assign(a);
+            big
+        } else {
+            let (rr, cr) = (kind == 2 || kind == 3 || kind >= 6, kind >= 4);
+            let src = |(i, j): (usize, usize)| a[(if rr { n - 1 - i } else { i }, if cr { p - 1 - j } else { j })];
+            let mut b: Array2<F> = if kind % 2 == 1 { Array2::from_shape_fn((n, p).f(), src) } else { Array2::from_shape_fn((n, p), src) };
+            if rr {
+                b.invert_axis(Axis(0));
+            }
+            if cr {
+                b.invert_axis(Axis(1));
+            }
+            b
+        };
+        let l = Laid { arr, kind, p };
+        assert!(l.view() == a.view(), "layout {} does not show the data", kind);
+        l
+    }
+    fn view(&self) -> ArrayView2<'_, F> {
+        if self.kind == 8 {
+            self.arr.slice(s![1..;2, ..2 * self.p;2])
+        } else {
+            self.arr.view()
+        }
+    }
+    /// the owned array in this layout (the strided window has no owned form: its standard copy)
+    fn owned(&self) -> Array2<F> {
+        if self.kind == 8 {
+            self.view().to_owned()
+        } else {
+            self.arr.clone()
+        }
+    }
 }
 
-fn fit_case<F: linfa::Float, L: Label + Default + std::fmt::Debug>(c: &Case, ctx: &mut Ctx, stats: &RefCell<Vec<String>>, enc: &dyn Fn(usize) -> L, dec: &dyn Fn(&L) -> Option<usize>) -> String {
+fn fit_case<F: linfa::Float, L: Label + Default + std::fmt::Debug + Clone>(c: &Case, ctx: &mut Ctx, stats: &RefCell<Vec<String>>, enc: &dyn Fn(usize) -> L, dec: &dyn Fn(&L) -> Option<usize>) -> String {
     let n = c.xs.len();
     let class = c.class();
     let k = n_classes(&c.ys);
-    let (ff, pf) = (c.form % 7, c.form % 8);
+    // form = fit form + 7 * (predict form + 8 * (layout of the fitted records + 9 * layout of the predicted records))
+    let (ff, pf, lf, lp) = (c.form % 7, (c.form / 7) % 8, (c.form / 56) % N_LAYOUTS, (c.form / 504) % N_LAYOUTS);
     let recs: Array2<F> = Array2::from_shape_fn((n, c.p), |(i, j)| F::cast(c.x(i, j)));
     let tg: Array1<L> = Array1::from_shape_fn(n, |i| enc(c.ys[i]));
-    let wts: Option<Array1<f32>> = c.ws.as_ref().map(|_| Array1::from_shape_fn(n, |i| c.w32(i)));
+    let wts: Option<Array1<f32>> = c.ws.as_ref().map(|w| Array1::from_shape_fn(w.len(), |i| c.w32(i)));
     let mid_f: F = F::cast(c.mid);
     let params = DecisionTree::<F, L>::params()
         .split_quality(if c.entropy { SplitQuality::Entropy } else { SplitQuality::Gini })
@@ -311,32 +377,31 @@ fn fit_case<F: linfa::Float, L: Label + Default + std::fmt::Debug>(c: &Case, ctx
             }
         }};
     }
+    let laid = Laid::new(&recs, lf);
+    let names: Vec<String> = (0..c.p).map(|j| format!("col{}", j)).collect();
     let fitted = match ff {
-        0 => fit_ds(&params, &with_w!(DatasetBase::new(recs.clone(), tg.clone()))),
-        1 => fit_ds(&params, &with_w!(DatasetBase::new(f_order(&recs), tg.clone()))),
+        // the owned array in its layout (negative strides included)
+        0 => fit_ds(&params, &with_w!(DatasetBase::new(laid.owned(), tg.clone()))),
+        // a view of the records, a view of the targets
+        1 => fit_ds(&params, &with_w!(DatasetBase::new(laid.view(), tg.view()))),
         2 => {
-            let big = strided(&recs);
-            fit_ds(&params, &with_w!(DatasetBase::new(strided_view(&big, c.p), tg.view())))
+            // a view of the records and a strided view of the targets (every second entry of a longer array)
+            let tg2: Array1<L> = Array1::from_shape_fn(2 * n, |i| if i % 2 == 0 { enc(c.ys[i / 2]) } else { L::default() });
+            fit_ds(&params, &with_w!(DatasetBase::new(laid.view(), tg2.slice(s![..;2]))))
         }
-        3 => {
-            let rev = reversed(&recs);
-            fit_ds(&params, &with_w!(DatasetBase::new(rev.slice(s![..;-1, ..]), tg.clone())))
-        }
+        3 => fit_ds(&params, &with_w!(DatasetBase::new(laid.view(), tg.clone()))),
         4 => {
-            let ds = with_w!(DatasetBase::new(recs.clone(), tg.clone()));
+            let ds = with_w!(DatasetBase::new(laid.owned(), tg.clone()));
             fit_ds(&params, &ds.view())
         }
-        5 => {
-            let names: Vec<String> = (0..c.p).map(|j| format!("col{}", j)).collect();
-            fit_ds(&params, &with_w!(DatasetBase::new(f_order(&recs), tg.clone())).with_feature_names(names))
-        }
-        _ => fit_ds(&params, &with_w!(DatasetBase::new(recs.clone(), CountedTargets::new(tg.clone())))),
+        5 => fit_ds(&params, &with_w!(DatasetBase::new(laid.owned(), tg.clone())).with_feature_names(names)),
+        _ => fit_ds(&params, &with_w!(DatasetBase::new(laid.view(), CountedTargets::new(tg.clone())))),
     };
     let tree = match fitted {
         Ok(t) => t,
         Err(e) => return format!("err {:?}", e).replace(' ', "_"),
     };
-    let mut w = Walk { c, k, mid: mid_f.to_f64().unwrap(), dec, toks: vec![], n_splits: 0, n_leaves: 0, max_depth: 0, feats: vec![], leaf_pred: vec![None; n] };
+    let mut w = Walk { c, k, mid: mid_f.to_f64().unwrap(), dec, toks: vec![], n_splits: 0, n_leaves: 0, max_depth: 0, feats: vec![], leaf_pred: vec![None; n], named: ff == 5 };
     w.go(ctx, tree.root_node(), (0..n).collect(), 0);
     // ---- importances
     let imp: Vec<f64> = tree.feature_importance().iter().map(|x| x.to_f64().unwrap()).collect();
@@ -354,12 +419,10 @@ fn fit_case<F: linfa::Float, L: Label + Default + std::fmt::Debug>(c: &Case, ctx
     if let Some(md) = c.md {
         ctx.require(dmax <= md, "max_depth", &class, || format!("max_depth() = {} with max_depth parameter {}", dmax, md));
     }
-    let mut feats = tree.features();
-    feats.sort();
+    let feats = tree.features();
     let mut wf = w.feats.clone();
     wf.sort();
     wf.dedup();
-    ctx.require(feats == wf, "features", &class, || format!("features() = {:?} but the split nodes use {:?}", feats, wf));
     // level order by hand
     let mut level: Vec<&TreeNode<F, L>> = vec![tree.root_node()];
     let mut queue_pos = 0;
@@ -372,6 +435,14 @@ fn fit_case<F: linfa::Float, L: Label + Default + std::fmt::Debug>(c: &Case, ctx
             }
         }
     }
+    // `features()`: the feature index of every split node once, in the order the level order meets them
+    let mut first_met: Vec<usize> = vec![];
+    for nd in &level {
+        if !nd.is_leaf() && !first_met.contains(&nd.split().0) {
+            first_met.push(nd.split().0);
+        }
+    }
+    ctx.require(feats == first_met, "features", &class, || format!("features() = {:?} but the level order meets the split features as {:?}", feats, first_met));
     let it: Vec<&TreeNode<F, L>> = tree.iter_nodes().collect();
     ctx.require(it.len() == level.len() && it.iter().zip(level.iter()).all(|(a, b)| std::ptr::eq(*a, *b)), "iter_nodes", &class, || format!("iter_nodes() yields {} nodes in an order that is not the level order of the {} nodes", it.len(), level.len()));
     let bfs = list(it.iter(), |nd| {
@@ -383,35 +454,36 @@ fn fit_case<F: linfa::Float, L: Label + Default + std::fmt::Debug>(c: &Case, ctx
     });
     // ---- prediction of the training rows = prediction of the leaf they were assigned while fitting
     let np = c.pr.len();
-    let all: Array2<F> = Array2::from_shape_fn((n + np, c.p), |(i, j)| F::cast(if i < n { c.x(i, j) } else { c.pr[i - n][j] as f64 / (1u64 << c.xd) as f64 }));
+    let all: Array2<F> = Array2::from_shape_fn((n + np, c.p), |(i, j)| F::cast(if i < n { c.x(i, j) } else { c.val(c.pr[i - n][j]) }));
+    let laid_p = Laid::new(&all, lp);
     let pred: Array1<L> = match pf {
-        0 => tree.predict(&all),
-        1 => tree.predict(&f_order(&all)),
+        0 => tree.predict(&laid_p.owned()),
+        1 => tree.predict(&laid_p.view()),
         2 => {
-            let big = strided(&all);
-            tree.predict(&strided_view(&big, c.p))
-        }
-        3 => {
-            let ds = DatasetBase::new(all.clone(), Array1::<usize>::zeros(n + np));
+            let ds = DatasetBase::new(laid_p.view(), Array1::<usize>::zeros(n + np));
             tree.predict(&ds)
         }
-        4 => {
-            let out: DatasetBase<Array2<F>, Array1<L>> = tree.predict(all.clone());
+        3 => {
+            let out: DatasetBase<Array2<F>, Array1<L>> = tree.predict(laid_p.owned());
             out.targets().clone()
         }
-        5 => {
-            let ds = DatasetBase::new(f_order(&all), Array1::<usize>::zeros(n + np));
+        4 => {
+            let ds = DatasetBase::new(laid_p.owned(), Array1::<usize>::zeros(n + np));
             let out: DatasetBase<Array2<F>, Array1<L>> = tree.predict(ds);
             out.targets().clone()
         }
-        6 => {
-            let rev = reversed(&all);
-            let out: DatasetBase<ArrayView2<F>, Array1<L>> = tree.predict(rev.slice(s![..;-1, ..]));
+        5 => {
+            let out: DatasetBase<ArrayView2<F>, Array1<L>> = tree.predict(laid_p.view());
             out.targets().clone()
+        }
+        6 => {
+            let mut y: Array1<L> = Array1::default(n + np);
+            tree.predict_inplace(&laid_p.owned(), &mut y);
+            y
         }
         _ => {
             let mut y: Array1<L> = Array1::default(n + np);
-            tree.predict_inplace(&all.view(), &mut y);
+            tree.predict_inplace(&laid_p.view(), &mut y);
             y
         }
     };
@@ -429,6 +501,12 @@ fn fit_case<F: linfa::Float, L: Label + Default + std::fmt::Debug>(c: &Case, ctx
         st.push(format!("fitted:ft={}", ft));
         st.push(format!("fitted:fit_form={}", ff));
         st.push(format!("fitted:predict_form={}", pf));
+        st.push(format!("fitted:fit_layout={}", LAYOUT_NAMES[lf]));
+        st.push(format!("fitted:predict_layout={}", LAYOUT_NAMES[lp]));
+        // the layouts in which a feature column is contiguous in memory but walked backwards
+        if lf == 3 || lf == 7 || (c.p == 1 && (lf == 2 || lf == 6)) {
+            st.push(format!("fitted:fit_column_backwards;ft={}", ft));
+        }
         st.push(format!("fitted:label_type={}", ["usize", "bool", "string", "usize_scrambled"][c.lt as usize]));
         st.push(format!("fitted:weights={}", class.rsplit('=').next().unwrap()));
         st.push(format!("fitted:crit={}", if c.entropy { "entropy" } else { "gini" }));
@@ -440,6 +518,26 @@ fn fit_case<F: linfa::Float, L: Label + Default + std::fmt::Debug>(c: &Case, ctx
         st.push(format!("tree_depth:{}", if w.max_depth >= 4 { "4+".to_string() } else { w.max_depth.to_string() }));
         if wf.len() > 1 {
             st.push("features_used:2+".to_string());
+        }
+        if feats.windows(2).any(|p| p[0] > p[1]) {
+            // the returned order differs from the ascending one: the order comparison has teeth
+            st.push("features_order:not_ascending".to_string());
+        }
+        if c.xe > 0 {
+            st.push(format!("extreme:fitted;ft={}", ft));
+            if w.n_splits > 0 {
+                st.push(format!("extreme:split_tree;ft={}", ft));
+            }
+            // a split whose two neighbouring values have a sum beyond the exponent range, or an infinite threshold
+            if w.toks.iter().any(|t| t == &hex64(f64::INFINITY) || t == &hex64(f64::NEG_INFINITY)) {
+                st.push("extreme:infinite_threshold".to_string());
+            }
+        }
+        if c.ws.as_ref().map(|w| w.len() < n).unwrap_or(false) {
+            st.push("fitted:short_weights".to_string());
+        }
+        if c.ws.as_ref().map(|w| w.iter().any(|x| *x == 0)).unwrap_or(false) {
+            st.push("fitted:zero_weights".to_string());
         }
     }
     format!(
@@ -511,7 +609,8 @@ fn run_case(em: &mut Em, c: Case) {
 }
 
 /// streams: 0 lattice, 1 dyadic around the 1e-5 skip, 2 modal ties, 3 empty, 4 neighbouring floats,
-/// 5 decimal weights, 6 large (more rows, more features, more distinct values)
+/// 5 decimal weights, 6 large (more rows, more features, more distinct values), 7 extreme magnitudes
+/// (finite values at the top of the exponent range, whose sums overflow, and infinite values)
 fn gen_case(rng: &mut Rng, big: bool, stream: u8) -> Case {
     let ft32 = rng.chance(1, 3);
     let nmax = if stream == 6 { if big { 70 } else { 40 } } else if big { 28 } else { 11 };
@@ -523,6 +622,7 @@ fn gen_case(rng: &mut Rng, big: bool, stream: u8) -> Case {
     let p = if stream == 6 { 1 + rng.below(5) } else { 1 + rng.below(3) };
     let k = 2 + rng.below(5); // 2..6 classes
     let lt = if k == 2 { *rng.pick(&[0u8, 1, 2, 3]) } else { *rng.pick(&[0u8, 2, 3]) };
+    let xe: u32 = if stream == 7 { if ft32 { 125 } else { 1021 } } else { 0 };
     let (xd, vals): (u32, Vec<i64>) = match stream {
         // dyadic values around the 1e-5 equal-value skip: one unit = 2^-20 ≈ 9.5e-7
         1 => (20, vec![0, 10, 11, 21, 32, 42, 1 << 20, (1 << 20) + 10, (1 << 20) + 21, -11, -(1 << 19)]),
@@ -534,6 +634,9 @@ fn gen_case(rng: &mut Rng, big: bool, stream: u8) -> Case {
             (xd, vec![b, b + 1, b + 2, b + 3, b + 5, b + 8, b + 9])
         }
         6 => (0, (-6..=12).collect()),
+        // multiples of 2^1021 (f64) / 2^125 (f32): |q| <= 7 is finite, the sum of two values with
+        // |q1 + q2| >= 8 overflows; duplicates of +inf and -inf
+        7 => (0, vec![-7, -6, -5, -3, -2, 0, 2, 3, 5, 6, 7, -7, 6, INF_CODE, -INF_CODE]),
         _ => {
             let r = *rng.pick(&[2i64, 3, 4, 7]);
             (0, (0..=r).map(|v| v - (r / 3)).collect())
@@ -546,7 +649,7 @@ fn gen_case(rng: &mut Rng, big: bool, stream: u8) -> Case {
         .map(|i| match mode {
             0 => rng.below(k),
             1 => ((xs[i][0].rem_euclid(1000) as usize) + if rng.chance(1, 5) { rng.below(k) } else { 0 }) % k,
-            2 => (xs[i].iter().sum::<i64>().rem_euclid(1000) as usize + if rng.chance(1, 6) { 1 } else { 0 }) % k,
+            2 => (xs[i].iter().fold(0i64, |a, v| a.wrapping_add(*v)).rem_euclid(1000) as usize + if rng.chance(1, 6) { 1 } else { 0 }) % k,
             _ => if xs[i][p - 1] > vals[vals.len() / 2] { rng.below(2) } else { (2 + rng.below(k - 1)) % k },
         })
         .collect();
@@ -558,9 +661,16 @@ fn gen_case(rng: &mut Rng, big: bool, stream: u8) -> Case {
     } else if rng.chance(1, 2) {
         (None, 0, 1)
     } else {
-        (Some((0..n).map(|_| rng.range(1, 5)).collect()), rng.below(2) as u32, 1)
+        // dyadic weights; one weighted case in four contains zero weights, one in five a weight vector
+        // shorter than the data (`weight_for` answers 1.0 beyond its end)
+        let lo = if rng.chance(1, 4) { 0 } else { 1 };
+        let len = if n > 1 && rng.chance(1, 5) { 1 + rng.below(n - 1) } else { n };
+        (Some((0..len).map(|_| rng.range(lo, 5)).collect()), rng.below(2) as u32, 1)
     };
-    let mut md = if stream == 4 { Some(1 + rng.below(3)) } else { *rng.pick(&[None, None, Some(0usize), Some(1), Some(2), Some(3), Some(5)]) };
+    // streams 4 and 7 hit repaired defects whose symptom without max_depth is an unbounded recursion (a
+    // stack overflow aborts the process): they run with a depth limit, so that a regression is reported by
+    // the oracle instead of by an aborted run
+    let mut md = if stream == 4 { Some(1 + rng.below(3)) } else if stream == 7 { Some(1 + rng.below(5)) } else { *rng.pick(&[None, None, None, Some(0usize), Some(1), Some(2), Some(3), Some(4), Some(5), Some(6), Some(8)]) };
     let mws4 = *rng.pick(&[8u32, 8, 0, 4, 10, 12, 20]);
     let mwl4 = if rng.chance(1, 25) { 0 } else { *rng.pick(&[4u32, 4, 1, 2, 6, 8, 12]) };
     if mwl4 == 0 && wq != 1 && md.is_none() {
@@ -573,19 +683,25 @@ fn gen_case(rng: &mut Rng, big: bool, stream: u8) -> Case {
     let eps = if ft32 { f32::EPSILON as f64 } else { f64::EPSILON };
     let mid = *rng.pick(&[1e-5, 1e-5, eps, 0.01, 0.1, 0.25, 0.3, 0.5]);
     let np = rng.below(4);
-    let mut pr: Vec<Vec<i64>> = (0..np).map(|_| (0..p).map(|_| *rng.pick(&vals) + if stream == 4 { 0 } else { rng.range(-1, 1) }).collect()).collect();
+    let mut pr: Vec<Vec<i64>> = (0..np).map(|_| (0..p).map(|_| { let v = *rng.pick(&vals); if stream == 4 || v.abs() == INF_CODE { v } else { v + rng.range(-1, 1) } }).collect()).collect();
     if xd == 0 && n > 0 {
         // probes at doubled resolution are not representable with xd = 0; probe the data values and neighbours only
         pr.push(xs[rng.below(n)].clone());
     }
     let form = rng.below(N_FORMS);
-    Case { ft32, form, entropy: rng.chance(2, 5), md, mws4, mwl4, mid, xd, xs, ys, ws, wd, wq, pr, p, lt }
+    if (2..=7).contains(&((form / 56) % N_LAYOUTS)) && md.is_none() {
+        // records with a negative stride: a regression in how linfa reads them (a column read in memory
+        // order) produces splits with an empty side, and without a depth limit fit then recurses until the
+        // stack overflows, which aborts the run; with the limit the oracle names the failing input
+        md = Some(6);
+    }
+    Case { ft32, form, entropy: rng.chance(2, 5), md, mws4, mwl4, mid, xd, xe, xs, ys, ws, wd, wq, pr, p, lt }
 }
 
 pub fn run(em: &mut Em, rng: &mut Rng) {
     let big = em.thorough();
     // fixed corner cases first
-    let base = Case { ft32: false, form: 0, entropy: false, md: None, mws4: 8, mwl4: 4, mid: 1e-5, xd: 0, xs: vec![], ys: vec![], ws: None, wd: 0, wq: 1, pr: vec![], p: 1, lt: 0 };
+    let base = Case { ft32: false, form: 0, entropy: false, md: None, mws4: 8, mwl4: 4, mid: 1e-5, xd: 0, xe: 0, xs: vec![], ys: vec![], ws: None, wd: 0, wq: 1, pr: vec![], p: 1, lt: 0 };
     let mk = |xs: Vec<Vec<i64>>, ys: Vec<usize>| Case { p: xs.first().map(|r| r.len()).unwrap_or(1), xs, ys, ..base.clone() };
     // one row; constant feature; duplicates with conflicting labels; separable; 4-row modal tie
     run_case(em, mk(vec![vec![1]], vec![0]));
@@ -597,7 +713,7 @@ pub fn run(em: &mut Em, rng: &mut Rng) {
     run_case(em, Case { mwl4: 0, ..mk(vec![vec![0, 1], vec![1, 0], vec![2, 3], vec![3, 1], vec![4, 0]], vec![0, 1, 0, 1, 2]) });
     // the 4-row modal tie in every label type (the tie goes to the smaller *label*) and form
     for lt in 0..4u8 {
-        for form in 0..N_FORMS {
+        for form in (0..N_FORMS).step_by(101) {
             run_case(em, Case { lt, form, ft32: form % 2 == 1, ..mk(vec![vec![0], vec![0], vec![1], vec![1]], vec![0, 1, 0, 1]) });
         }
     }
@@ -613,17 +729,28 @@ pub fn run(em: &mut Em, rng: &mut Rng) {
     let b23 = 1i64 << 23;
     run_case(em, Case { ft32: true, md: Some(1), xd: 16, ..mk(vec![vec![b23], vec![b23], vec![b23 + 1], vec![b23 + 1]], vec![0, 0, 1, 1]) });
     run_case(em, Case { ft32: true, md: Some(1), xd: 16, ..mk(vec![vec![b23 + 1], vec![b23 + 1], vec![b23 + 2], vec![b23 + 2]], vec![0, 0, 1, 1]) });
-    let total = if big { 40000 } else { 3000 };
+    // witnesses of the two findings repaired in round 3, f64 and f32: two negative values of very large
+    // magnitude (the midpoint overflowed to -inf: every row went right), duplicates of +inf / -inf (not
+    // recognised as equal: threshold inf, every row went left / the applied partition was not the scored one)
+    for ft32 in [false, true] {
+        let xe = if ft32 { 125 } else { 1021 };
+        run_case(em, Case { ft32, xe, md: Some(3), ..mk(vec![vec![-6], vec![-6], vec![-5], vec![-5]], vec![0, 0, 1, 1]) });
+        run_case(em, Case { ft32, xe, md: Some(3), ..mk(vec![vec![1], vec![INF_CODE], vec![INF_CODE]], vec![0, 0, 1]) });
+        run_case(em, Case { ft32, xe, md: Some(3), ..mk(vec![vec![-INF_CODE], vec![-INF_CODE], vec![1], vec![1]], vec![0, 1, 1, 1]) });
+        run_case(em, Case { ft32, xe, md: Some(3), ..mk(vec![vec![6], vec![6], vec![7], vec![7]], vec![0, 0, 1, 1]) });
+    }
+    let total = if big { 48000 } else { 3600 };
     for i in 0..total {
-        let stream = match i % 20 {
+        let stream = match i % 24 {
             0..=7 => 0u8,
             8..=10 => 1,
             11..=13 => 2,
             14..=15 => 5,
-            16..=17 => 6,
-            _ => if i % 200 == 19 { 3 } else { 4 },
+            16..=19 => 6,
+            20..=21 => 7,
+            _ => if i % 240 == 23 { 3 } else { 4 },
         };
-        em.count(&format!("stream:{}", ["lattice", "dyadic_eps", "modal_tie", "empty", "adjacent_floats", "decimal_weights", "large"][stream as usize]));
+        em.count(&format!("stream:{}", ["lattice", "dyadic_eps", "modal_tie", "empty", "adjacent_floats", "decimal_weights", "large", "extreme"][stream as usize]));
         let c = gen_case(rng, big && i % 3 != 0, stream);
         run_case(em, c);
     }
